@@ -44,6 +44,8 @@ Definition palg_of_dict (e : dict) : res palg :=
               | Some _ => if (version <? 2)%Z then Err D_InvalidKeyLength else Ok tt
               | None => Ok tt
               end in
+    (* V 5: the key is always 256 bits, the Length entry is ignored *)
+    let length := if (version =? 5)%Z then None else length in
     rlet _ := match length with
               | Some l => if negb (l mod 8 =? 0) || negb ((KEYLEN_MIN <=? l) && (l <=? KEYLEN_MAX))
                           then Err D_InvalidKeyLength else Ok tt
